@@ -30,7 +30,9 @@ RULE = ("strings: every string over the 18-character alphabet {0 1 9 . e - + spa
         "parseUnsignedInt, parseValue<int|int64|double|float|ms|bool|resource|string> and the six std::sto* "
         "functions; a boundary stream (2^31, 2^43, 2^53, 2^63, 2^64 neighbourhoods, 1e19, exponents around every "
         "format limit, nan / inf words, hex floats, trailing garbage, fractions, percent forms, white space) and "
-        "seeded random longer strings.  plugins: every registered core plugin with valid / invalid / missing / unknown "
+        "seeded random longer strings; multi-term sizes (2..8 terms, mixed units, fractional terms, every term below 2^63) whose "
+        "exact total lies just below / at / above 2^63, 2^64, 2^64+2^63, 2^65, also as thresholds of memory_above / "
+        "kill_by_swap_usage and inside documents; bare-megabyte counts around 2^43 and 2^44.  plugins: every registered core plugin with valid / invalid / missing / unknown "
         "arguments drawn per argument kind from the schema extracted from the sources; IRs with named / unnamed "
         "rulesets and groups, delays, silence-logs, drop-in flags, prekill hooks; JSON documents (etc/desktop.json, "
         "generated ones) with a wrong value shape substituted at every position, truncated texts; drop-in files "
@@ -90,7 +92,76 @@ BOUNDARY = [
     "123456789012345678901234567890", "0.000000000000000000000000000001", "1.5G32K", "1G1M1K1", "1T1G", "7T", "8191G", "8192G", "8388608M",
 ]
 
-TOTALS = ["1000", "0", "16384000000", "99", "92233720368547758", "1"]
+# multi-component sums: every term below 2^63, the exact total at / around 2^63, 2^64 (where a uint64
+# accumulator wraps back to a small value), 2^64 + 2^63, 2^65; and the bare-megabyte products around 2^63 / 2^64
+BOUNDARY += [
+    "8388607T 8388607T 2T 5K", "-8388607T 8388607T 2T 5K", "8388607T8388607T2T", "8388607T 8388607T 2T", "8388607T 8388607T 1T 1023G 1023M 1023K 1023",
+    "8388607T 8388607T 1T 1023G 1023M 1023K 1024", "8388607T 8388607T", "8388607T 1T", "8388607T 1023G 1023M 1023K 1023", "8388607T 1023G 1023M 1023K 1024",
+    "4611686018427387904 4611686018427387904", "4194304T 4194304T 4194304T 4194304T", "4194304T 4194304T 4194304T 4194304T 1", "4194304T4194304T4194304T4194304T5K",
+    "4194304T 4194304T 4194304T", "4194304T 4194303T 1023G 1023M 1023K 1023", "4194304T 4194303T 1023G 1023M 1023.5K 512",
+    "8388607.5T 8388607.5T 1T", "8388607.5T 8388607.5T 1T 0.5K", "6291456T 6291456T 4194304T 1", "8388607T 8388607T 8388607T 8388607T 4T 7",
+    "9223372036854775807 1", "9223372036854775807K", "1K 9223372036854775807", "1K9223372036854774783", "1K9223372036854774784",
+    "17592186044416", "17592186044421", "-17592186044416", "35184372088832", "17592186044415", "8796093022209", " 8796093022208", "+8796093022207",
+    "-8796093022208", "-8796093022209", "00008796093022208", "70368744177664", "281474976710656",
+]
+
+TOTALS = ["1000", "0", "16384000000", "99", "92233720368547758", "1", "72057594037927935", "4294967297"]
+
+UNITS = [(2 ** 40, "T"), (2 ** 30, "G"), (2 ** 20, "M"), (2 ** 10, "K")]
+
+
+def render_amount(rng, v):
+    """terms (each below 2^63, the bare one last) whose exact sum is v >= 0"""
+    out = []
+    for u, ch in UNITS:
+        cap = (2 ** 63 - 1) // u
+        while v >= u and (rng.random() < 0.85 or u == 2 ** 10):
+            q = min(v // u, cap)
+            if q > 1 and rng.random() < 0.3:
+                q = rng.randint(1, q)
+            if q % 2 == 1 and u >= 2 ** 20 and rng.random() < 0.2 and q * u + u // 2 <= v:
+                out.append("%d.5%s" % (q, ch))
+                v -= q * u + u // 2
+            else:
+                out.append("%d%s" % (q, ch))
+                v -= q * u
+            if len(out) > 7:
+                break
+    if v or not out:
+        out.append(str(v))
+    return out
+
+
+def sum_strings(rng, n):
+    """size strings of 2..8 terms whose exact total sits just below / at / above 2^63, 2^64, 2^64+2^63, 2^65"""
+    for _ in range(n):
+        base = rng.choice([2 ** 63, 2 ** 63, 2 ** 64, 2 ** 64, 2 ** 64, 2 ** 64 + 2 ** 63, 2 ** 65, 3 * 2 ** 64])
+        delta = rng.choice([-1025, -1024, -513, -2, -1, 0, 0, 1, 2, 512, 1023, 1024, 5120, rng.randint(-2 ** 20, 2 ** 20),
+                            rng.randint(0, 2 ** 41), rng.randint(-2 ** 41, 0), rng.randint(0, 2 ** 62)])
+        total = base + delta
+        lead = []
+        for _ in range(rng.randint(0, 3)):
+            u, ch = rng.choice(UNITS)
+            q = rng.randint(1, (2 ** 63 - 1) // u) if rng.random() < 0.7 else rng.randint(1, 4096)
+            frac = rng.choice(["", "", "", ".5", ".25", ".75"]) if u >= 2 ** 20 else ""
+            val = q * u + (int(float("0" + frac) * u) if frac else 0)
+            if val <= total and val < 2 ** 63:
+                lead.append("%d%s%s" % (q, frac, ch))
+                total -= val
+        terms = lead + render_amount(rng, total)
+        bare = [t for t in terms if t[-1].isdigit()]
+        terms = [t for t in terms if not t[-1].isdigit()]
+        rng.shuffle(terms)
+        terms += bare[:1]                      # a bare number can only stand last
+        sep = rng.choice([" ", " ", "", "  "])
+        s = sep.join(terms)
+        if rng.random() < 0.3:
+            s = s.lower()
+        yield rng.choice(["", "", "", "-", "+", " "]) + s
+
+
+def overflow_sizes(rng, n):
+    return list(sum_strings(rng, n))
 
 
 def all_strings(alpha, maxlen, minlen=0):
@@ -151,8 +222,10 @@ POOL = {
     "bool": (["true", "True", "1", "false", "False", "0"], ["yes", "TRUE", "", "2", "no", "tRue", " true"]),
     "resource": (["io", "memory"], ["cpu", "IO", "", "memory ", "mem"]),
     "cgroup": (["a", "a/b,c", "system.slice/*", "workload.slice/workload-*.slice,system.slice", "/", ",,a,,", "a//b/", ""], []),
-    "sizepct": (["10%", "0%", "100%", "5", "5M", "1.5G 32K", "512", "8796093022207", "1K", "+5", "0x10", "1e3", " 5%", "-5M"],
-                ["101%", "5.5%", "-1%", "1e30", "nan", "inf", "", "9999999999999", "8796093022208", "9223372036854775807K", "99999999999T",
+    "sizepct": (["10%", "0%", "100%", "5", "5M", "1.5G 32K", "512", "8796093022207", "1K", "+5", "0x10", "1e3", " 5%", "-5M",
+                 "8388607T 1023G 1023M 1023K 1023", "4194304T 4194303T 1023G 1023M 1023.5K 512"],
+                ["8388607T 8388607T 2T 5K", "4194304T 4194304T 4194304T 4194304T 1", "8388607T 1T", "17592186044416", "17592186044421",
+                 "101%", "5.5%", "-1%", "1e30", "nan", "inf", "", "9999999999999", "8796093022208", "9223372036854775807K", "99999999999T",
                  "5%z", "5 %", "abc", "1.5MK", "5x%", "1e1%"]),
     "string": (["x", "", "foo bar"], []),
     "nonempty": (["foo.service", "x"], [""]),
@@ -221,6 +294,20 @@ def plugin_variants(rng, sch, tier):
         a.pop("threshold", None)
         out.append((a, {}))
     if name in ("memory_above", "kill_by_swap_usage"):
+        for th in ["8388607T 8388607T 2T 5K", "4194304T 4194304T 4194304T 4194304T", "8388607T 1T", "17592186044416", "17592186044421",
+                   "8388607T 1023G 1023M 1023K 1023"] + overflow_sizes(rng, 12 if tier == "quick" else 200):
+            a = dict(base)
+            a["threshold"] = th
+            out.append((a, {}))
+            if name == "memory_above":
+                a2 = dict(base)
+                a2.pop("threshold", None)
+                a2["threshold_anon"] = th
+                out.append((a2, {}))
+        for kb in ["70368744177663", "4194305"]:
+            a = dict(base)
+            a["threshold"] = rng.choice(["33%", "99%", "100%", "1%"])
+            out.append((a, {"memtotal_kb": kb, "swaptotal_kb": "2097151"}))
         a = dict(base)
         a["meminfo_location"] = "/nonexistent/meminfo"
         out.append((a, {"meminfo_missing": True}))
@@ -486,13 +573,16 @@ def gen(rng, tier):
     bsz = 64
     yield from batches(BOUNDARY, TOTALS, 32)
     if tier == "quick":
+        yield from batches(sum_strings(rng, 1500), TOTALS, bsz)
         yield from batches(all_strings(ALPHA, 4), TOTALS, bsz)
         yield from batches(rand_strings(rng, 6000), TOTALS, bsz)
     elif tier == "thorough":
+        yield from batches(sum_strings(rng, 60000), TOTALS, 256)
         yield from batches(all_strings(ALPHA, 5), TOTALS, 256)
         yield from batches(all_strings(ALPHA6, 6, 6), TOTALS, 256)
         yield from batches(rand_strings(rng, 200000), TOTALS, 256)
     else:
+        yield from batches(sum_strings(rng, 20000), TOTALS, bsz)
         yield from batches(all_strings(ALPHA, 3), TOTALS, bsz)
         yield from batches(rand_strings(rng, 60000), TOTALS, bsz)
     yield from gen_cgroup(rng, tier)
